@@ -64,6 +64,19 @@ Fixpoint bind (sig : list pkind) (args : list elem) : list elem :=
   end.
 Definition slot (i : nat) (slots : list elem) : elem := nth i slots ENull.
 
+(* the argument list as WRITTEN: plain arguments and ...spreads in any order (callMethodParams
+   flattens them first: a spread of an array contributes its elements in order, in place; a
+   spread of anything else that is not an object contributes nothing).  The binder then sees the
+   flattened list. *)
+Inductive arg := APlain (e : elem) | ASpread (e : elem).
+Definition arg_items (a : arg) : list elem :=
+  match a with
+  | APlain e => [e]
+  | ASpread (EArr xs) => xs
+  | ASpread _ => []
+  end.
+Definition flatten_args (l : list arg) : list elem := flat_map arg_items l.
+
 (* named arguments (callMethodParams, the NamedArgument branch): after the positional arguments
    each  name: v  goes to the single parameter of that name.  An unknown name, the name of a
    variadic parameter, and a parameter that already has an argument (positional, or an earlier
